@@ -1319,6 +1319,55 @@ impl<'a> Suite<'a> {
 				}
 			}
 		}
+		// grammar-aware shapes: well-formed certificates and correctly signed requests whose field
+		// values sweep lengths, tags and ranges; each also as PEM; whatever is accepted is issued
+		// from again (imported parameters are parameters a caller can construct)
+		let mut shaped: Vec<(String, Vec<u8>, bool)> = Vec::new();
+		for (n, d) in crate::props::shapes::certificates() {
+			shaped.push((format!("shape-cert:{}", n), d, true));
+		}
+		for (n, d) in crate::props::shapes::requests() {
+			shaped.push((format!("shape-csr:{}", n), d, false));
+		}
+		for (n, d) in crate::props::c06::handmade_requests() {
+			shaped.push((format!("handmade-csr:{}", n), d, false));
+		}
+		for (n, d) in crate::props::c06::edge_requests(&self.ctx.rsa_fixture.clone()) {
+			shaped.push((format!("edge-csr:{}", n), d, false));
+		}
+		for (n, d, _) in crate::props::import::handmade_cas() {
+			shaped.push((format!("handmade-ca:{}", n), d, true));
+		}
+		let issuer_cert = simple_ca;
+		let mut reissued = 0u64;
+		for (name, der, is_cert) in &shaped {
+			run(self, &entries, name, der);
+			let pem_text = pem::encode(&pem::Pem::new(if *is_cert { "CERTIFICATE" } else { "CERTIFICATE REQUEST" }, der.clone()));
+			run(self, &text_entries, name, pem_text.as_bytes());
+			self.rep.count(if *is_cert { "shaped_certificates" } else { "shaped_requests" });
+			let r = std::panic::catch_unwind(std::panic::AssertUnwindSafe(|| {
+				if *is_cert {
+					CertificateParams::from_ca_cert_der(&der.clone().into()).ok().map(|p| {
+						let _ = p.clone().self_signed(&key);
+						let _ = p.signed_by(&*key, &issuer_cert, &key);
+					})
+				} else {
+					CertificateSigningRequestParams::from_der(&der.clone().into()).ok().map(|c| {
+						let _ = c.signed_by(&issuer_cert, &key);
+					})
+				}
+			}));
+			match r {
+				Ok(Some(())) => reissued += 1,
+				Ok(None) => {},
+				Err(_) => {
+					let site = panic_site(&crate::last_panic());
+					self.rep.violate(&format!("C10:panic:issue-from-parsed:{}", site), "issuing from parameters returned by a parsing entry point panics", format!("origin={}\nbytes={}\n{}", name, hex(der), crate::last_panic()));
+				},
+			}
+		}
+		self.rep.add("issued_from_parsed", reissued);
+		self.rep.exhaustive.push("grammar-aware shapes into every parsing entry point (DER and PEM), then issuing from whatever was accepted: certificates and correctly signed requests with each known extension at its edges (iPAddress of 0..40 and longer octets in SAN / permitted / excluded / distribution points, every other general-name kind, path lengths to 2^64, key-usage bit strings of 0..4 octets x 0..8 unused bits, EKU lists, key identifiers of 0..300 octets, repeated extensions), names with every string tag x 18 contents, attribute types with components beyond u64 and malformed OIDs, 15 validity forms, 8 serial shapes, 5 versions, 16 SubjectPublicKeyInfo shapes".into());
 		// random bytes, short and DER-looking
 		for _ in 0..n_random {
 			let len = self.rng.below(64) as usize;
@@ -1347,6 +1396,31 @@ impl<'a> Suite<'a> {
 				self.rep.violate("C10:panic:parse:string-constructor", "a string-type constructor panics", hex(&b));
 			}
 		}
+		// long texts: a refused or multi-byte character at every offset around 2^k / 10^k sizes
+		for t in crate::props::shapes::long_texts() {
+			let r = std::panic::catch_unwind(|| {
+				let _ = rcgen::string::PrintableString::try_from(t.as_str());
+				let _ = rcgen::string::PrintableString::try_from(t.clone());
+				let _ = rcgen::string::Ia5String::try_from(t.as_str());
+				let _ = rcgen::string::Ia5String::try_from(t.clone());
+				let _ = t.parse::<rcgen::string::Ia5String>();
+				let _ = rcgen::string::TeletexString::try_from(t.as_str());
+				let _ = rcgen::string::TeletexString::try_from(t.clone());
+				let _ = rcgen::string::BmpString::try_from(t.as_str());
+				let _ = rcgen::string::BmpString::try_from(t.clone());
+				let _ = rcgen::string::UniversalString::try_from(t.as_str());
+				let _ = rcgen::string::UniversalString::try_from(t.clone());
+				let _ = rcgen::string::BmpString::from_utf16be(t.as_bytes().to_vec());
+				let _ = rcgen::string::UniversalString::from_utf32be(t.as_bytes().to_vec());
+				let _ = CertificateParams::new(vec![t.clone()]);
+			});
+			offers += 14;
+			if r.is_err() {
+				let site = panic_site(&crate::last_panic());
+				self.rep.violate(&format!("C10:panic:parse:string-constructor:{}", site), "a string-type constructor panics", format!("text of {} bytes: {}\n{}", t.len(), hex(&t.as_bytes()[..t.len().min(300)]), crate::last_panic()));
+			}
+		}
+		self.rep.exhaustive.push("string constructors on texts with a multi-byte, refused or NUL character at every offset within 3 of 0, 31, 63, 127, 255, 511, 1023, 4095, 9999, 65535".into());
 		self.rep.add("parse_offers", offers);
 		self.rep.add("parse_accepted", accepted);
 		self.rep.evaluations += offers;
